@@ -26,12 +26,12 @@ Proof.
       assert (Hn : ~ (fst z < fst (as_pq_min z l) \/ (fst z = fst (as_pq_min z l) /\ (snd z < snd (as_pq_min z l))%nat))).
       { intros Hc. apply as_entry_ltb_spec in Hc. congruence. }
       lia.
-    + intros y [<- | Hy]; [| now apply H2].
-      destruct (as_entry_ltb y x) eqn:Eyx; [exact H1 |].
-      (* min <= x <= y *)
-      destruct (as_entry_ltb y (as_pq_min x l)) eqn:E; [| reflexivity].
+    + intros y [Hy | Hy]; [subst y | now apply H2].
+      destruct (as_entry_ltb z x) eqn:Ezx; [exact H1 |].
+      (* min <= x <= z *)
+      destruct (as_entry_ltb z (as_pq_min x l)) eqn:E; [| reflexivity].
       apply as_entry_ltb_spec in E.
-      assert (Hn1 : ~ (fst y < fst x \/ (fst y = fst x /\ (snd y < snd x)%nat))).
+      assert (Hn1 : ~ (fst z < fst x \/ (fst z = fst x /\ (snd z < snd x)%nat))).
       { intros Hc. apply as_entry_ltb_spec in Hc. congruence. }
       assert (Hn2 : ~ (fst x < fst (as_pq_min x l) \/ (fst x = fst (as_pq_min x l) /\ (snd x < snd (as_pq_min x l))%nat))).
       { intros Hc. apply as_entry_ltb_spec in Hc. congruence. }
@@ -57,9 +57,10 @@ Proof.
 Qed.
 Lemma as_pq_get_other : forall q m rest y, as_pq_get q = Some (m, rest) -> In y q -> snd y <> snd m -> In y rest.
 Proof.
-  intros [| x r] m rest y H Hy Hne; simpl in H; [discriminate |]. injection H as <- <-.
-  apply as_pq_remove_other; [exact Hy |]. unfold as_entry_eqb.
-  destruct (Nat.eqb_spec (snd (as_pq_min x r)) (snd y)); [congruence | apply andb_false_r].
+  intros [| x r] m rest y H Hy Hne; [discriminate |]. unfold as_pq_get in H. cbv zeta in H. injection H as <- <-.
+  assert (Heq : as_entry_eqb (as_pq_min x r) y = false).
+  { unfold as_entry_eqb. destruct (Nat.eqb_spec (snd (as_pq_min x r)) (snd y)); [congruence | apply andb_false_r]. }
+  exact (as_pq_remove_other (as_pq_min x r) (x :: r) y Hy Heq).
 Qed.
 
 (* ------------------------------------------------------------------ the full-search invariant *)
@@ -71,6 +72,7 @@ Section Optimal.
   Hypothesis Hgoal0 : h goal goal = 0.
   (* consistency of the heuristic towards the goal (triangle inequality of the metric) *)
   Hypothesis Hcons : forall a b e, In (b, e) (adj a) -> h a goal <= h a b + h b goal.
+  Hypothesis Hhg : forall n, 0 <= h n goal.
 
   (* all neighbours of a are recorded with a cost no larger than going through a *)
   Definition as_closed (cs : list (nat * Z)) (a : nat) (ca : Z) : Prop :=
@@ -80,11 +82,14 @@ Section Optimal.
     forall n p e, n <> start -> as_lookup n (as_came st) = Some (Some (p, e)) ->
       exists cp cn, as_lookup p (as_cost st) = Some cp /\ as_lookup n (as_cost st) = Some cn /\ cp + h p n <= cn.
   Definition F_front (st : as_state) : Prop :=
-    forall q n, In (q, n) (as_frontier st) -> exists c, as_lookup n (as_cost st) = Some c /\ c + h n goal <= q.
+    forall q n, In (q, n) (as_frontier st) -> n <> start -> exists c, as_lookup n (as_cost st) = Some c /\ c + h n goal <= q.
+  (* the current queue entry of a (the very first entry is (0, start), pathfinding.py:16) *)
+  Definition has_entry (st : as_state) (a : nat) (ca : Z) : Prop :=
+    In (ca + h a goal, a) (as_frontier st) \/ (a = start /\ In (0, start) (as_frontier st)).
   (* every recorded node except [ex] is closed or has its current entry in the queue *)
   Definition F_open (ex : option nat) (st : as_state) : Prop :=
     forall a ca, Some a <> ex -> as_lookup a (as_cost st) = Some ca ->
-      as_closed (as_cost st) a ca \/ In (ca + h a goal, a) (as_frontier st).
+      as_closed (as_cost st) a ca \/ has_entry st a ca.
 
   Lemma as_closed_mono : forall cs a ca nxt nc,
     as_closed cs a ca -> (match as_lookup nxt cs with Some old => nc <= old | None => True end) ->
@@ -97,13 +102,13 @@ Section Optimal.
   Qed.
 
   Lemma as_relax_full : forall nbrs cur st cc done,
-    as_st_inv adj h start goal false st -> as_lookup cur (as_cost st) = Some cc ->
+    as_st_inv adj start goal false st -> as_lookup cur (as_cost st) = Some cc ->
     F_parent st -> F_front st -> F_open (Some cur) st ->
     (forall b e, In (b, e) done -> exists cb, as_lookup b (as_cost st) = Some cb /\ cb <= cc + h cur b) ->
     (forall x, In x nbrs -> In x (adj cur)) ->
     match as_relax h goal false cur nbrs st with
     | AS_Continue st' =>
-        as_st_inv adj h start goal false st' /\ as_lookup cur (as_cost st') = Some cc /\
+        as_st_inv adj start goal false st' /\ as_lookup cur (as_cost st') = Some cc /\
         F_parent st' /\ F_front st' /\ F_open (Some cur) st' /\
         (forall b e, In (b, e) (done ++ nbrs) -> exists cb, as_lookup b (as_cost st') = Some cb /\ cb <= cc + h cur b)
     | _ => False
@@ -115,7 +120,7 @@ Section Optimal.
       assert (Hadj : In (nxt, e) (adj cur)) by (apply Hsub; now left).
       assert (Hsub' : forall x, In x r -> In x (adj cur)) by (intros x Hx; apply Hsub; now right).
       destruct (Hh cur nxt e Hadj) as [Hh0 Hhpos].
-      pose proof (si_nonneg _ _ _ _ _ _ I cur cc Hcc) as Hcc0.
+      pose proof (si_nonneg _ _ _ _ _ I cur cc Hcc) as Hcc0.
       set (nc := cc + h cur nxt).
       (* the two outcomes: update / no update *)
       assert (Hupd : forall mg, (match as_lookup nxt (as_cost st) with Some old => nc < old | None => True end) ->
@@ -123,14 +128,14 @@ Section Optimal.
                         (mkAS ((nc + h nxt goal, nxt) :: as_frontier st) ((nxt, Some (cur, e)) :: as_came st)
                               ((nxt, nc) :: as_cost st) mg) with
                 | AS_Continue st' =>
-                    as_st_inv adj h start goal false st' /\ as_lookup cur (as_cost st') = Some cc /\
+                    as_st_inv adj start goal false st' /\ as_lookup cur (as_cost st') = Some cc /\
                     F_parent st' /\ F_front st' /\ F_open (Some cur) st' /\
                     (forall b e0, In (b, e0) (done ++ (nxt, e) :: r) -> exists cb, as_lookup b (as_cost st') = Some cb /\ cb <= cc + h cur b)
                 | _ => False
                 end).
       { intros mg Hlt.
         assert (Hns : nxt <> start).
-        { intros ->. rewrite (si_start _ _ _ _ _ _ I) in Hlt. unfold nc in Hlt. lia. }
+        { intros ->. rewrite (si_start _ _ _ _ _ I) in Hlt. unfold nc in Hlt. lia. }
         assert (Hnc : nxt <> cur).
         { intros ->. rewrite Hcc in Hlt. unfold nc in Hlt. lia. }
         assert (Hle : match as_lookup nxt (as_cost st) with Some old => nc <= old | None => True end)
@@ -139,11 +144,11 @@ Section Optimal.
         fold nc in I'.
         specialize (IH cur (mkAS ((nc + h nxt goal, nxt) :: as_frontier st) ((nxt, Some (cur, e)) :: as_came st)
                                  ((nxt, nc) :: as_cost st) mg) cc (done ++ [(nxt, e)]) I').
-        simpl in IH. rewrite as_lookup_cons_neq in IH by congruence.
+        cbn [as_cost as_came as_frontier as_margin] in IH. rewrite as_lookup_cons_neq in IH by congruence.
         replace (done ++ (nxt, e) :: r) with ((done ++ [(nxt, e)]) ++ r) by (rewrite <- app_assoc; reflexivity).
         apply IH; auto.
         - (* F_parent *)
-          intros n p e0 Hn Hl. simpl in Hl |- *. destruct (Nat.eq_dec n nxt) as [-> | Hne].
+          intros n p e0 Hn Hl. cbn [as_cost as_came as_frontier as_margin] in Hl |- *. destruct (Nat.eq_dec n nxt) as [-> | Hne].
           + rewrite as_lookup_cons_eq in Hl. injection Hl as <- <-.
             exists cc, nc. rewrite as_lookup_cons_neq by congruence. rewrite as_lookup_cons_eq. repeat split; auto. unfold nc; lia.
           + rewrite as_lookup_cons_neq in Hl by assumption.
@@ -153,18 +158,18 @@ Section Optimal.
             * exists nc, cn. rewrite as_lookup_cons_eq. repeat split; auto. rewrite Hp in Hle. lia.
             * exists cp, cn. rewrite as_lookup_cons_neq by assumption. auto.
         - (* F_front *)
-          intros q n [Hq | Hq]; simpl.
+          intros q n Hq Hnst; cbn [as_cost as_came as_frontier as_margin] in Hq |- *. destruct Hq as [Hq | Hq].
           + inversion Hq; subst. exists nc. rewrite as_lookup_cons_eq. split; [reflexivity | lia].
-          + destruct (HF q n Hq) as (c & Hc & Hcq). destruct (Nat.eq_dec n nxt) as [-> | Hne].
+          + destruct (HF q n Hq Hnst) as (c & Hc & Hcq). destruct (Nat.eq_dec n nxt) as [-> | Hne].
             * exists nc. rewrite as_lookup_cons_eq. split; [reflexivity |]. rewrite Hc in Hle. lia.
             * exists c. rewrite as_lookup_cons_neq by assumption. auto.
         - (* F_open *)
-          intros a ca Ha Hl. simpl in Hl |- *. destruct (Nat.eq_dec a nxt) as [-> | Hne].
-          + rewrite as_lookup_cons_eq in Hl. injection Hl as <-. right. now left.
+          intros a ca Ha Hl. cbn [as_cost as_came as_frontier as_margin] in Hl |- *. destruct (Nat.eq_dec a nxt) as [-> | Hne].
+          + rewrite as_lookup_cons_eq in Hl. injection Hl as <-. right. left. now left.
           + rewrite as_lookup_cons_neq in Hl by assumption.
-            destruct (HO a ca Ha Hl) as [Hcl | Hin]; [left; now apply as_closed_mono | right; now right].
+            destruct (HO a ca Ha Hl) as [Hcl | [Hin | [Hs Hin]]]; [left; now apply as_closed_mono | right; left; now right | right; right; split; [assumption | now right]].
         - (* done *)
-          intros b e0 Hb. simpl. apply in_app_or in Hb as [Hb | [Hb | []]].
+          intros b e0 Hb. cbn [as_cost as_came as_frontier as_margin]. apply in_app_or in Hb as [Hb | [Hb | []]].
           + destruct (HD b e0 Hb) as (cb & Hcb & Hle'). destruct (Nat.eq_dec b nxt) as [-> | Hne].
             * exists nc. rewrite as_lookup_cons_eq. split; [reflexivity |]. rewrite Hcb in Hle. lia.
             * exists cb. rewrite as_lookup_cons_neq by assumption. auto.
@@ -176,13 +181,13 @@ Section Optimal.
           replace (done ++ (nxt, e) :: r) with ((done ++ [(nxt, e)]) ++ r) by (rewrite <- app_assoc; reflexivity).
           apply IH; auto.
           -- now apply as_st_inv_margin.
-          -- intros b e0 Hb. simpl. apply in_app_or in Hb as [Hb | [Hb | []]]; [now apply HD |].
+          -- intros b e0 Hb. cbn [as_cost as_came as_frontier as_margin]. apply in_app_or in Hb as [Hb | [Hb | []]]; [now apply (HD b e0) |].
              inversion Hb; subst. exists old. split; [assumption | unfold nc in Hge; lia].
       + fold nc. apply Hupd. exact Logic.I.
   Qed.
 
   Record as_full_inv (st : as_state) : Prop := {
-    fi_base : as_st_inv adj h start goal false st;
+    fi_base : as_st_inv adj start goal false st;
     fi_parent : F_parent st;
     fi_front : F_front st;
     fi_open : F_open None st
@@ -193,10 +198,164 @@ Section Optimal.
     constructor.
     - apply as_init_inv.
     - intros n p e Hn Hl. unfold as_init in Hl. simpl in Hl. destruct (Nat.eqb_spec n start); [contradiction | discriminate].
-    - intros q n [Hq | []]. inversion Hq; subst. exists 0. unfold as_init; simpl. rewrite Nat.eqb_refl.
-      split; [reflexivity |]. (* 0 + h start goal <= 0 is not needed: the entry is (0, start) *)
-      admit_placeholder.
+    - intros q n [Hq | []] Hn. inversion Hq; subst. contradiction.
     - intros a ca _ Hl. unfold as_init in Hl; simpl in Hl. destruct (Nat.eqb_spec a start) as [-> | Hne]; [| discriminate].
-      injection Hl as <-. right. unfold as_init; simpl. admit_placeholder.
+      right. right. split; [reflexivity | now left].
+  Qed.
+
+  (* ---- lower bound: at the moment (p, goal) is popped, every walk from start to goal costs at least cost_so_far[goal] *)
+  Section LowerBound.
+    Variable st : as_state.
+    Variable p : Z.
+    Hypothesis I : as_full_inv st.
+    Hypothesis Hmin : forall y, In y (as_frontier st) -> p <= fst y.
+
+    Definition GE (x : Z) (n : nat) : Prop :=
+      p - h n goal <= x \/ exists c, as_lookup n (as_cost st) = Some c /\ c <= x.
+
+    Lemma GE_step : forall x a b e, 0 <= x -> GE x a -> In (b, e) (adj a) -> GE (h a b + x) b.
+    Proof.
+      intros x a b e Hx0 HG Hin. pose proof (Hcons a b e Hin) as Hc. destruct (Hh a b e Hin) as [Hab _].
+      destruct HG as [HG | (ca & Hca & Hle)].
+      - left. lia.
+      - destruct (Z_lt_le_dec (ca + h a goal) p) as [Hlt | Hge]; [| left; lia].
+        destruct (fi_open st I a ca ltac:(discriminate) Hca) as [Hcl | [Hin' | [Hs Hin']]].
+        + destruct (Hcl b e Hin) as (cb & Hcb & Hle'). right. exists cb. split; [assumption | lia].
+        + specialize (Hmin _ Hin'). simpl in Hmin. lia.
+        + specialize (Hmin _ Hin'). simpl in Hmin. left. pose proof (Hhg b). lia.
+    Qed.
+
+    Lemma as_chain_cost_nonneg : forall ws es, as_chain adj ws es -> 0 <= as_chain_cost h ws.
+    Proof.
+      intros ws es H. induction H as [a | a b e ns es Hin Hc IH]; simpl; [lia |].
+      destruct (Hh b a e Hin) as [H0 _]. simpl in IH. lia.
+    Qed.
+
+    Lemma GE_walk : forall ws es, as_chain adj ws es -> forall d, last ws d = start ->
+      GE (as_chain_cost h ws) (hd d ws).
+    Proof.
+      intros ws es H. induction H as [a | a b e ns es Hin Hc IH]; intros d Hlast.
+      - simpl in *. subst a. right. exists 0. split; [apply (si_start _ _ _ _ _ (fi_base st I)) | lia].
+      - change (as_chain_cost h (a :: b :: ns)) with (h b a + as_chain_cost h (b :: ns)).
+        change (hd d (a :: b :: ns)) with a.
+        apply (GE_step _ b a e); [eapply as_chain_cost_nonneg; eassumption | | assumption].
+        apply (IH d). exact Hlast.
+    Qed.
+
+    Lemma as_lower_bound : goal <> start -> In (p, goal) (as_frontier st) ->
+      exists cg, as_lookup goal (as_cost st) = Some cg /\
+        forall ws es, as_chain adj ws es -> hd_error ws = Some goal -> last ws goal = start -> cg <= as_chain_cost h ws.
+    Proof.
+      intros Hgs Hin. destruct (fi_front st I p goal Hin Hgs) as (cg & Hcg & Hle). rewrite Hgoal0 in Hle.
+      exists cg. split; [assumption |]. intros ws es Hch Hhd Hlast.
+      pose proof (GE_walk ws es Hch goal Hlast) as HG.
+      destruct ws as [| g ws']; [discriminate |]. injection Hhd as ->. simpl hd in HG.
+      destruct HG as [HG | (c & Hc & Hle')]; [rewrite Hgoal0 in HG; lia | congruence || (rewrite Hcg in Hc; injection Hc as <-; lia)].
+    Qed.
+  End LowerBound.
+
+  (* ---- the loop *)
+  Definition as_found_spec (cf : list (nat * option (nat * nat))) (cs : list (nat * Z)) : Prop :=
+    (forall n p e, n <> start -> as_lookup n cf = Some (Some (p, e)) ->
+       exists cp cn, as_lookup p cs = Some cp /\ as_lookup n cs = Some cn /\ cp + h p n <= cn) /\
+    (forall n c, as_lookup n cs = Some c -> 0 <= c) /\
+    exists cg, as_lookup goal cs = Some cg /\
+      forall ws es, as_chain adj ws es -> hd_error ws = Some goal -> last ws goal = start -> cg <= as_chain_cost h ws.
+
+  Lemma as_loop_full : forall fuel st, as_full_inv st -> goal <> start ->
+    match as_loop adj h goal false fuel st with
+    | AS_Found cf cs _ => as_found_spec cf cs
+    | AS_NotFound _ => True
+    | AS_Err => False
+    end.
+  Proof.
+    induction fuel as [| f IH]; intros st I Hgs; simpl; [exact Logic.I |].
+    destruct (as_pq_get (as_frontier st)) as [[[p cur] rest] |] eqn:Hget; [| exact Logic.I].
+    destruct (as_pq_get_some _ _ _ Hget) as [Hin Hrest].
+    pose proof (si_frontier _ _ _ _ _ (fi_base st I) p cur Hin) as Hcur.
+    destruct (Nat.eqb_spec cur goal) as [-> | Hcg].
+    - split; [exact (fi_parent st I) |]. split; [exact (si_nonneg _ _ _ _ _ (fi_base st I)) |].
+      apply (as_lower_bound st p I); auto.
+      intros y Hy. apply (as_pq_get_min _ _ _ Hget y Hy).
+    - destruct (as_lookup cur (as_cost st)) as [cc |] eqn:Hcc; [| congruence].
+      set (st1 := mkAS rest (as_came st) (as_cost st) (as_pop_margin (as_margin st) p rest)).
+      assert (I1 : as_st_inv adj start goal false st1).
+      { destruct (fi_base st I) as [B1 B2 B3 B4 B5 B6]; constructor; simpl; auto. intros p' c' H'. eapply B5. apply Hrest. exact H'. }
+      assert (HF1 : F_front st1).
+      { intros q n Hq Hn. apply (fi_front st I q n); [apply Hrest; exact Hq | exact Hn]. }
+      assert (HO1 : F_open (Some cur) st1).
+      { intros a ca Ha Hl. assert (Hac : a <> cur) by congruence.
+        destruct (fi_open st I a ca ltac:(discriminate) Hl) as [Hcl | [He | [Hs He]]]; [now left | right; left | right; right; split; [assumption |]].
+        - apply (as_pq_get_other _ _ _ _ Hget He). simpl. exact Hac.
+        - apply (as_pq_get_other _ _ _ _ Hget He). simpl. congruence. }
+      pose proof (as_relax_full (adj cur) cur st1 cc [] I1 Hcc (fi_parent st I) HF1 HO1
+                    (fun b e (H : In (b, e) []) => match H with end) (fun x H => H)) as Hr.
+      destruct (as_relax h goal false cur (adj cur) st1) as [st' | st' |]; try contradiction.
+      destruct Hr as (I' & Hcc' & HP' & HF' & HO' & HD').
+      apply IH; [| assumption]. constructor; auto.
+      intros a ca _ Hl. destruct (Nat.eq_dec a cur) as [-> | Hne].
+      + left. rewrite Hcc' in Hl. injection Hl as <-. intros b e Hb. apply (HD' b e). exact Hb.
+      + apply HO'; [congruence | assumption].
+  Qed.
+
+  (* ---- the backward pass follows parents whose costs add up to at most cost_so_far *)
+  Lemma as_backward_cost : forall cf cs,
+    (forall n p e, n <> start -> as_lookup n cf = Some (Some (p, e)) ->
+       exists cp cn, as_lookup p cs = Some cp /\ as_lookup n cs = Some cn /\ cp + h p n <= cn) ->
+    (forall n c, as_lookup n cs = Some c -> 0 <= c) ->
+    forall fuel n ns es cn, as_backward_loop fuel cf start n = Some (ns, es) -> as_lookup n cs = Some cn ->
+      hd_error ns = Some n /\ as_chain_cost h ns <= cn.
+  Proof.
+    intros cf cs HP Hnn. induction fuel as [| f IH]; intros n ns es cn Hrun Hcn; simpl in Hrun.
+    - destruct (Nat.eqb_spec n start); [| discriminate]. injection Hrun as <- <-. simpl. split; [reflexivity | eauto].
+    - destruct (Nat.eqb_spec n start) as [-> | Hne].
+      + injection Hrun as <- <-. simpl. split; [reflexivity | eauto].
+      + destruct (as_lookup n cf) as [[[p e] |] |] eqn:Hl; try discriminate.
+        destruct (as_backward_loop f cf start p) as [[ns' es'] |] eqn:Hrec; [| discriminate].
+        injection Hrun as <- <-.
+        destruct (HP n p e Hne Hl) as (cp & cn' & Hp & Hn' & Hle). rewrite Hcn in Hn'. injection Hn' as <-.
+        destruct (IH p ns' es' cp Hrec Hp) as [Hhd Hcost]. split; [reflexivity |].
+        destruct ns' as [| x r]; [discriminate |]. injection Hhd as ->.
+        change (as_chain_cost h (n :: p :: r)) with (h p n + as_chain_cost h (p :: r)). lia.
+  Qed.
+
+  (* astar_optimal *)
+  Theorem as_astar_optimal : forall maxits ns es mg,
+    as_path adj h start goal false maxits = AS_Path ns es mg ->
+    forall ws es', as_chain adj ws es' -> hd_error ws = Some goal -> last ws goal = start ->
+      as_chain_cost h ns <= as_chain_cost h ws.
+  Proof.
+    intros maxits ns es mg Hrun ws es' Hch Hhd Hlast.
+    destruct (Nat.eq_dec goal start) as [Hgs | Hgs].
+    - (* start = goal: the returned path is [start] of cost 0 *)
+      subst goal. destruct maxits as [| n]; [discriminate |].
+      rewrite as_path_start_eq_goal in Hrun. injection Hrun as <- _ _.
+      simpl. eapply as_chain_cost_nonneg; eassumption.
+    - unfold as_path in Hrun. unfold as_forward in Hrun.
+      pose proof (as_loop_full maxits (as_init start) as_init_full Hgs) as Hl.
+      destruct (as_loop adj h goal false maxits (as_init start)) as [cf cs mg' | mg' |]; try discriminate.
+      destruct Hl as (HP & Hnn & cg & Hcg & Hlb).
+      unfold as_backward in Hrun.
+      destruct (as_backward_loop (S (length cf)) cf start goal) as [[ns0 es0] |] eqn:Hb; [| discriminate].
+      injection Hrun as <- <- _.
+      destruct (as_backward_cost cf cs HP Hnn _ _ _ _ cg Hb Hcg) as [_ Hcost].
+      specialize (Hlb ws es' Hch Hhd Hlast). lia.
   Qed.
 End Optimal.
+
+(* the hypotheses of as_astar_optimal are satisfiable (same instance as as_path_example, goal = 3) *)
+Lemma as_optimal_example :
+  let adj := (fun n => match n with
+                       | 0 => [(1, 0); (2, 2)] | 1 => [(0, 0); (2, 1); (3, 3)]
+                       | 2 => [(1, 1); (0, 2); (3, 4)] | 3 => [(1, 3); (2, 4)] | _ => [] end)%nat in
+  let h := (fun a b => if (a =? b)%nat then 0 else 3 + Z.of_nat (a + b)) in
+  (forall a b e, In (b, e) (adj a) -> 0 <= h a b /\ (a <> b -> 0 < h a b)) /\
+  h 3%nat 3%nat = 0 /\
+  (forall a b e, In (b, e) (adj a) -> h a 3%nat <= h a b + h b 3%nat) /\
+  (forall n, 0 <= h n 3%nat).
+Proof.
+  split; [| split; [reflexivity | split]].
+  - intros a b e _. destruct (Nat.eqb_spec a b); split; intros; try lia; contradiction.
+  - intros a b e _. destruct (Nat.eqb_spec a 3), (Nat.eqb_spec a b), (Nat.eqb_spec b 3); lia.
+  - intros n. destruct (Nat.eqb_spec n 3); lia.
+Qed.
